@@ -83,6 +83,23 @@ void profile_cfg_more(const std::string &prof, uint64_t seed, RunCfg &c, Rng &r)
       c.beh_w = {0, 10, 5, 0, 0, 0, 0, 80, 0, 0, 5, 0, 0, 0, 0};
       if (r.chance(0.5)) c.knobs["nactive"] = 1;
     }
+  } else if (prof == "C14B") {
+    // allocation-failure enumeration with the event thread: healthy network, short program, every index failed once
+    c.mode = 1;
+    c.faults = 0;
+    c.allow_cancel_in_cb = 1;
+    c.nthreads = 1 + (int)r.below(2);
+    static const int evs[] = {0, 2, 4, 5};
+    c.evsys = evs[r.below(4)];
+    c.sched_policy = 0; c.sched_preempt = r.chance(0.5) ? 0 : (int)r.below(200);
+    c.sockfuncs = 0; c.pending_write_cb = 0; c.sock_create_cb = 0; c.sock_config_cb = 0; c.loop_style = 0;
+    c.beh_w = {90, 0, 0, 0, 0, 0, 10, 0, 0, 0, 0, 0, 0, 0, 0};
+    c.tries = 2; c.timeout_ms = 100 + (int)r.below(300); c.maxtimeout_ms = -1;
+    if (c.flags < 0) c.flags = ARES_FLAG_EDNS;
+    c.qcache_max_ttl = r.chance(0.6) ? 300 : 0;
+    c.names.resize(3 + r.below(3));
+    c.hosts_file = "127.0.0.1 localhost\n::1 localhost\n10.77.0.1 hostsname1 alias1\n";
+    c.names.push_back("!hostsname1"); c.names.push_back("!localhost");
   } else if (prof == "C11" || prof == "C07B") {
     // Mode B: real threads under the baton scheduler, the library's own event thread drives all I/O
     c.mode = 1;
@@ -437,6 +454,11 @@ bool profile_plan_more(const RunCfg &c, Rng &r, std::vector<Step> &plan) {
       if (s.k == S_THINK) s.a = r.chance(0.6) ? (int64_t)r.below(20) : (r.chance(0.7) ? (int64_t)r.below(600) : (int64_t)r.below(8000));
       if (s.k == S_REQ && !c.allow_cancel_in_cb && (s.d % R_NREACT) == R_CANCEL) s.d += 1;
     }
+    return true;
+  }
+  if (p == "C14B") {
+    gen(c, r, plan, weights({{S_REQ, 45}, {S_THINK, 20}, {S_CANCEL, 4}, {S_SETSRV, 4}, {S_REINIT, 5}, {S_WAITEMPTY, 6}, {S_QUERYINFO, 3}, {S_DUP, 4}, {S_SAVEOPT, 2}, {S_CSVROUND, 2}, {S_SORTLIST, 2}, {S_INOTIFY, 3}}), 2, 8);
+    for (auto &s : plan) { s.thr = 1 + (int)r.below((uint64_t)(c.nthreads > 0 ? c.nthreads : 1)); if (s.k == S_THINK) s.a = (int64_t)r.below(300); if (s.k == S_WAITEMPTY) s.a = 1 + 3 * (int64_t)r.below(100); }
     return true;
   }
   if (p == "C07B") {
@@ -2116,6 +2138,7 @@ bool profile_nontrivial(const Run &run) {
   if (p == "C09") return base && get("selection_with_failed_servers") > 0;
   if (p == "C14") return run.cfg.knob("fail_at", -1) <= 0 ? base : get("allocation_failure_delivered") > 0;
   if (p == "C11") return !W.txs.empty() && get("callers_joined") > 0;
+  if (p == "C14B") return run.cfg.knob("fail_at", -1) <= 0 ? get("callers_joined") > 0 : get("allocation_failure_delivered") > 0;
   if (p == "C07B") return !W.txs.empty() && get("think") > 0 && get("callers_joined") > 0;
   if (p == "C16") return get("user_settings_checked") > 0 && (get("dup_compared") + get("save_init_compared") + get("csv_round_trip_compared") + get("reinit") > 0);
   if (p == "C17") return base && get("cookie_tx_checked") > 0 && get("server_cookie_learned") > 0;
@@ -2131,6 +2154,7 @@ const char *profile_rule(const std::string &prof) {
   if (prof == "C17") return "runs are seeded histories against servers with scripted cookie behaviour (none, valid, changing, wrong client part, short/long, BADCOOKIE once/always/without cookie, support withdrawn and restored), source-address changes and clock jumps placed around 120 s / 300 s / 1 day (including exact-second instants); a reference RFC 7873 client model judges every COOKIE option seen at the virtual server and every delivered answer; non-trivial = cookies were sent and at least one server cookie was learned; distinct = distinct trace-shape hash";
   if (prof == "C09") return "runs are seeded success/failure histories over 1..6 servers (silence, error rcodes, partitions, open/connect/receive failures), rotation on/off, failover options (retry chance 0/1/n, retry delay 0/short/long), server-list edits in flight and clock advances across the retry delay; a reference health table is driven by the public server-state callback stream and every UDP transmission must go to a server the policy allows or be a legal probe copy; non-trivial = at least one transmission was judged while some server had failures; distinct = distinct trace-shape hash";
   if (prof == "C11") return "one run = 2..4 caller threads with seeded programs (all request entry points, cancel, server-list edits, reinit, sortlist/local setters, queue wait with and without timeout, active-query count, dup, save-options, injected inotify events) against a live event thread (epoll/poll/select back ends) and its reload thread; all threads are real pthreads released one at a time by a seeded baton scheduler (continue-with-preemption-probability, PCT-style priorities or uniform), blocking and timed waits are virtual; non-trivial = traffic reached the virtual network and all caller programs ran to completion; distinct = distinct hash of (call/shape trace, scheduling decisions)";
+  if (prof == "C14B") return "as C14, with the library's event thread: a scenario is a seeded short threaded program (event thread on epoll/poll/select, 1..2 caller threads issuing requests, cancel, server-list edits, reinit incl. via injected inotify events, queue waits, dup) under the baton scheduler; it is executed once failure-free to count N allocator calls and once per failing index in its own process; non-trivial = the failure was delivered; distinct = distinct hash of (trace shape, scheduling decisions)";
   if (prof == "C07B") return "one run = 1..2 caller threads issuing requests separated by virtual think times from 0 ms to 70 s against the library's own event thread (each back end), with connections fresh, idle-kept-open (STAYOPEN) or busy and servers that answer or stay silent; no application action besides the requests; the run must end with every request completed within its retry budget and never reach scheduler quiescence with a request outstanding; non-trivial = traffic, at least one think time, programs completed; distinct = distinct hash of (call/shape trace, scheduling decisions)";
   if (prof == "C16") return "runs are seeded option masks and values (each option independently set or left to the system), server sets (IPv4/IPv6/link-local, default/equal/differing ports) given through one of five encodings, sortlists, domains, and virtual resolv.conf/nsswitch/environment contents that disagree with every user-set field; plans interleave traffic with ares_dup, save-options -> init-options, get-servers-csv -> set on a fresh channel, rewrites of the system files and ares_reinit, explicit setters; non-trivial = the user-settings invariant was evaluated and at least one copy/round-trip/reinit happened; distinct = distinct trace-shape hash";
   if (prof == "C14") return "a scenario is a seeded short plan (channel init with options and system files, 1..8 requests of all kinds driven to completion against a healthy network, cache hits, server-list edits, reinit, cancel, dup, save-options, destroy); it is executed once without failure to count its N allocator calls and then once per n in 1..N with exactly the n-th allocation failing (quick tier: at most --max-subs evenly spread n per scenario); evaluations counts executions; non-trivial = the injected failure was actually delivered; distinct = distinct trace-shape hash";
